@@ -6,12 +6,17 @@ check(
     "different digests or divergent buckets; buckets whose key digests differ being reported equal; a client-visible difference that does not show in the key digest; "
     "and, for max_keys_per_sync 1/2/5/1000, a digest-driven exchange (driven through AntiEntropyManager by hand and through MultiNodeSimulation::run_anti_entropy_sync, "
     "ceil(keys/limit)+2 rounds) after which a replica holds something other than its prior value or the merge, or - where all keys of the divergent buckets fit into one "
-    "round - has not converged to the merge with equal digests. Silence means no counterexample among the sampled pairs. Three root causes are listed and searched past: "
+    "round - has not converged to the merge with equal digests. Also drives long-lived replicas: 2-3 AntiEntropyManagers through generated sequences of local writes, "
+    "replication, digest exchanges, request/response round trips, heal and time (every process_peer_digest verdict against the states), and one MultiNodeSimulation "
+    "(2-3 SimulatedNodes, SET/DEL, gossip rounds with loss, partition/heal, run_anti_entropy_sync, run_full_anti_entropy) in which every digest a node computes - also after "
+    "state that arrived by replication or by an earlier sync - is compared with the digest of an independent replica holding the same state and with the peer's, and every "
+    "pair sync / full pass with the merges. Silence means no counterexample among the sampled pairs. Three root causes are listed and searched past: "
     "bucket fold in map iteration order (KF-C18-01), key digest blind to everything but outer stamp and string bytes (KF-C18-02), limited rounds re-send the same keys "
     "(KF-C18-03; while open, liveness is not asserted for states with more keys in divergent buckets than the limit); consequences of KF-C07-01/02 are recognised by their C07 signatures.",
     "divergence is judged from sorted KeyDigest lists per bucket (64-bit collisions ignored); followers only apply remote deltas; the code under test iterates RandomState "
     "HashMaps, so which keys a limited round carries is not reproducible and liveness under a binding limit is covered only by the deterministic probe; peer-only differences "
-    "(same client view) are not required to show in the digest; gossip/network delivery and src/stateright models are out of scope",
+    "(same client view) are not required to show in the digest; simulator sessions hold LWW strings/tombstones only, <= 3 nodes, <= 6 keys, <= 24 events, the simulator's seeded "
+    "gossip timing; real network delivery and src/stateright models are out of scope",
     "property-based testing (proptest, shrinking to replay files) with order-independent reference digests",
     "DESIGN.md §3 C18",
 )
